@@ -2067,3 +2067,37 @@ def r09_9(ctx):
     else:
         ctx.bad("socket_egress|no-route-kept-queued", "socket_egress maps every dispatch_ip error to the same retry-later outcome: a datagram whose destination has no route at all "
                 "stays at the head of its socket's transmit queue for ever, and every datagram queued behind it - also for resolvable destinations - is never transmitted", body=callers[0])
+
+
+@rule('R10.6', ['C10', 'C09', 'C11'], floor=1, clause='the source address of a UDP datagram is taken from the application-supplied metadata (local_address) only when that address is unicast; otherwise the socket falls back to its bound address / the interface\'s source address selection')
+def r10_6(ctx):
+    F = ctx.F
+    U = 'socket::udp::Socket'
+    d = ctx.method(U, 'dispatch')
+    fam = [d] + list(F.closures_of(d.key))
+    n = 0
+    uni = lambda g: g[0] == 'bool' and g[2] is True and (is_call(strip(g[1]), '::is_unicast') or is_call(strip(g[1]), '::x_is_unicast'))
+    # the fall-back: any test of the bound endpoint address / call of the interface's source selection
+    fallback = lambda g: g[0] in ('is', 'isnot') and any(l.endswith('.addr') and 'UdpMetadata' not in l and 'local_address' not in l for l in leafs(g[1]))
+    for b in fam:
+        news = [x[0] for x in b.calls() if (b.callee_name(x[1]) or '').endswith('ip::Repr::new')]
+        if not news:
+            continue
+        gsa = {x[0] for x in b.calls() if (b.callee_name(x[1]) or '').endswith('::get_source_address')}
+        for bi, bl in enumerate(b.blocks):
+            if bl['cl'] or bl['t'][0] != 'switch':
+                continue
+            for tb, lab, f in cond_facts(F, b, bi):
+                if not (f[0] == 'is' and f[2] == 'Some' and any(l.endswith('UdpMetadata.local_address') for l in leafs(f[1]))):
+                    continue
+                n += 1
+                unis = set(guard_edges(F, b, uni))
+                cut = unis | set(guard_edges(F, b, fallback))
+                seen = b.reachable(start=tb, cut_edges=cut, cut_blocks=gsa)
+                if (bi, tb, lab) not in unis and any(s_ in seen for s_ in news):
+                    ctx.bad("udp::dispatch|source-from-metadata-unchecked", "udp dispatch uses the application-supplied local_address as the IP source without checking that it is unicast: "
+                            "an application that answers with the metadata of a datagram it received by broadcast / multicast (the usual echo idiom) transmits with that broadcast / "
+                            "multicast address as source", body=b, bb=bi)
+                else:
+                    ctx.ok(('udp::dispatch', 'metadata source is unicast'), sample=dict(fn='udp::Socket::dispatch', uses_local_address='only if is_unicast()'))
+    ctx.need(n >= 1, "test of packet_meta.local_address in udp dispatch")
